@@ -346,3 +346,8 @@ def finalize(ctx):
         ctx.inconc("compute_chunk_sizes was never followed by a per-block measurement")
     if ctx.counters.get("follow_on_results_compared", 0) == 0:
         ctx.inconc("no follow-on result was compared")
+
+
+RULE += (
+    ' Producers also run over sliding-window reductions (advertised grid differs from the optimized one); directed operations that meet the unknown axis with a known-size operand or re-block it must refuse or agree with NumPy.'
+)
